@@ -143,8 +143,15 @@ def make_case(base_secs, variant, tmpdir):
     for tag, body in base_secs:
         last[tag] = body          # a section written twice denotes its later copy
     n_ev = sum(n_events(t, b) for t, b in last.items())
-    aux = "(%s, %s, %s, %s, %s)" % (out0, coq_list(coq_str(t) for _, t, _ in variant.get("unknown", [])),
-                                    coq_list("(%s, %s)" % (coq_str(i), coq_str(d)) for i, d in keys), coq_bool(bool(variant.get("remove")) or damage is not None), coq_Z(n_ev))
+    import re as _re
+    song_name = ""
+    for l in last.get("Song", []):
+        m_ = _re.match(r'^\s*Name = "(.*)"\s*$', l)
+        if m_:
+            song_name = m_.group(1)
+            break
+    aux = "(%s, %s, %s, %s, %s, %s)" % (out0, coq_list(coq_str(t) for _, t, _ in variant.get("unknown", [])),
+                                        coq_list("(%s, %s)" % (coq_str(i), coq_str(d)) for i, d in keys), coq_bool(bool(variant.get("remove")) or damage is not None), coq_Z(n_ev), coq_str(song_name))
     if variant["by_path"]:
         # by path the model starts from the BYTES of the file (utf-8-sig codec, universal newlines)
         inp = "(%s, None)" % coq_list("%d%%N" % b for b in file_bytes(text, variant["bom"], damage))
